@@ -86,6 +86,7 @@ type mstream struct {
 	poisoned   bool // a chunk of the main file with altered data was accepted
 	extCorrupt bool // a chunk of an external file with altered data was accepted (probe)
 	unknown    bool // the statement does not say what state the receiver is in
+	corrupt    string
 	otherSince bool // chunks of other keys were delivered since the last accepted chunk
 	rejSince   bool // chunks of this key were rejected since the stream started
 	files      map[string][]byte
@@ -115,6 +116,7 @@ type deliverTag struct {
 	mainCorrupt bool
 	extCorrupt  bool
 	desc        string
+	corrupt     string
 }
 
 func (t deliverTag) unmodified() bool {
@@ -338,21 +340,43 @@ func readAll(d *simfs.Disk, p string) []byte {
 // ---------------------------------------------------------------------------
 // observing the receiver's disk
 
-func (w *world) snapshot() map[string]string {
-	if !w.bigDisk {
-		return w.recv.Snapshot()
-	}
-	// large files: compare sizes and a sparse sample instead of whole contents
+// dump returns path -> content for every file and path+"/" -> "" for every
+// directory of the disk (full paths; harness access, not an operation of the
+// code under test). Large files are represented by their size and both ends
+// when sparse is set.
+func dump(d *simfs.Disk, sparse bool) map[string]string {
 	out := map[string]string{}
-	for p, c := range w.recv.Snapshot() {
-		if len(c) > 1<<16 {
-			out[p] = fmt.Sprintf("%d:%x:%x", len(c), c[:64], c[len(c)-64:])
-		} else {
-			out[p] = c
+	mem := d.Mem()
+	var walk func(dir string)
+	walk = func(dir string) {
+		names, err := mem.List(dir)
+		if err != nil {
+			return
+		}
+		for _, n := range names {
+			p := path.Join(dir, n)
+			st, err := mem.Stat(p)
+			if err != nil {
+				continue
+			}
+			if st.IsDir() {
+				out[p+"/"] = ""
+				walk(p)
+				continue
+			}
+			c := readAll(d, p)
+			if sparse && len(c) > 1<<16 {
+				out[p] = fmt.Sprintf("%d:%x:%x", len(c), c[:64], c[len(c)-64:])
+			} else {
+				out[p] = string(c)
+			}
 		}
 	}
+	walk("/")
 	return out
 }
+
+func (w *world) snapshot() map[string]string { return dump(w.recv, w.bigDisk) }
 
 func diff(a, b map[string]string) []string {
 	var out []string
@@ -453,6 +477,12 @@ func (w *world) checkPaths(what string, roots []string, index uint64, anyIndex b
 		switch o.op {
 		case simfs.OpCreate, simfs.OpWrite, simfs.OpLink, simfs.OpReuse, simfs.OpRemove:
 			// files are only ever made inside a snapshot directory of this snapshot
+			if len(parts) == 1 && isSnapDir(parts[0]) && o.op == simfs.OpCreate {
+				// the announced name resolves to the snapshot directory itself (".", "/",
+				// ""): nothing leaves the directory; the attempt fails on a POSIX disk
+				w.ctx.Count("probe.name_resolves_to_snapshot_dir", 1)
+				continue
+			}
 			if len(parts) != 2 || !isSnapDir(parts[0]) {
 				w.ctx.Violate(Prop, "path-escape", "%s: %s of %q: a file is created or written outside the directory of the snapshot being received (root %s)", what, o.op, o.path, root)
 				return
